@@ -81,7 +81,7 @@ def run(tier):
     # random long histories (I->S beyond the bound)
     nrand, length = (300, 30) if tier == "quick" else (3000, 60)
     rh = [{"id": "r%d" % k, "c0": "c1", "events": random_history(rng, length)} for k in range(nrand)]
-    rh += vlib.pinned_reproducers(PID)
+    rh += [r for r in vlib.pinned_reproducers(PID) if "events" in r]
     r2 = validate(rep, rh, "random")
     rep.coverage.update({
         "states": g1.distinct + g2.distinct + r1["obs"].distinct + r2["obs"].distinct + r1["tr"].distinct + r2["tr"].distinct,
